@@ -558,7 +558,7 @@ def suite_C11():
 
 def suite_C12():
     """bound: one value of every kind x every builtin type"""
-    setup = 'struct VerifFoo(a, b);\nveriffoo := VerifFoo(1, 2);\n'
+    setup = 'struct VerifFoo(a, b);\nveriffoo := VerifFoo(1, 2);\nstruct VerifBar(p, q = 7);\nstruct VerifBaz(u = 8, r = 9);\n'
     vals = {'null': 'nulltype', '3': 'int', '(2^70)': 'int', '(6/3)': 'rational', '(1/2)': 'rational', '1.5': 'float', '(1+2i)': 'complex', '"s"': 'str', '[1]': 'list',
             '{1: 2}': 'dict', 'vector([1,2])': 'vector', 'bytes([1])': 'bytes', '(1 til 3)': 'stream', '(\\x -> x)': 'func', 'int': 'type', 'veriffoo': None}
     types = ['nulltype', 'int', 'rational', 'float', 'complex', 'number', 'str', 'list', 'dict', 'vector', 'bytes', 'stream', 'func', 'type', 'anything']
@@ -598,6 +598,12 @@ def suite_C12():
                                  ('a, b, ...c', '[a, b, c]', '[1]', 'ERR'), ('a, b', '[a, b]', '[1, 2, 3]', 'ERR'), ('a, b', '[a, b]', '[1]', 'ERR'),
                                  ('a, b', '[a, b]', '"xy"', '["x", "y"]'), ('a, ...b, c', '[a, b, c]', '1 til 6', '[1, [2, 3, 4], 5]')]:
         cases.append(('sp%d' % k, '(\\ -> (%s := %s; %s))()' % (pat, val, names), exp, dict(pattern=pat, value=val, what='sequence pattern with a splat')))
+        k += 1
+    # struct construction: arguments first, then the defaults of the remaining fields; a missing field without default raises
+    for expr, exp in [('q(VerifBar(1))', '7'), ('p(VerifBar(1))', '1'), ('q(VerifBar(1, 2))', '2'), ('VerifBar()', 'ERR'), ('VerifFoo(1)', 'ERR'), ('b(VerifFoo(1, 2))', '2'),
+                      ('VerifBar(1) is VerifBar', '1'), ('VerifBar(1) is VerifFoo', '0'), ('(\\ -> (VerifBar(x, y) := VerifBar(3); [x, y]))()', '[3, 7]'),
+                      ('r(VerifBaz())', '9'), ('[u(VerifBaz()), r(VerifBaz(1))]', '[8, 9]'), ('a(VerifBar(1))', 'ERR')]:
+        cases.append(('sc%d' % k, expr, exp, dict(expr=expr, what='struct construction and field access')))
         k += 1
     for decl, stmt in [('x: stream = 1 til 4', 'x[0] = 7'), ('x: stream = 1 til 4', 'x[1] += 5')]:
         cases.append(('g%d' % k, '(\\ -> (%s; %s; "completed"))()' % (decl, stmt), 'ERR', dict(declaration=decl, statement=stmt, what='annotation must be enforced')))
